@@ -378,7 +378,7 @@ def constant_block():
     for w in range(1, 33):
         for v2 in (False, True):
             for optional in (False, True):
-                big = w >= 17 and (w + v2 + optional) % 3 == 0
+                big = w in (17, 24, 32) and v2 == optional          # a 3-byte repeated index needs a dictionary of 70001 entries: six files
                 dsize = 70001 if big else (400 if w >= 9 else (1 << w))
                 idx = 70000 if big else (300 if w >= 9 else (1 << w) - 1)
                 text = (w % 2 == 1) and not big
@@ -440,3 +440,30 @@ def big_page_file(rng, codec, v2, text, npages=2):
         table += pv
     lf = {"leaves": [leaf], "rgs": [[{"codec": codec, "stats": True, "items": items}]], "created_by": "parquet-cpp-arrow version 14.0.2"}
     return lf, {leaf["name"]: table}
+
+
+def high_index_block():
+    """-> [(lfile, table, categories?)]: files NAMING fastparquet whose dictionary has more entries than a SIGNED index of the page's width
+    can address (129..256 entries at width 8, 32769.. at width 16) in exactly the layout fastparquet writes (one bit-packed run): the
+    raw-codes shortcut of the reader passes its layout check and must still read the indices as unsigned"""
+    out = []
+    for w, dsize in ((8, 200), (8, 256), (16, 40000)):
+        for v2 in (False, True):
+            for optional in (False, True):
+                for cats in ((False, True) if dsize < 32768 else (False,)):      # (categories=[col] allocates int16 codes: refused above 32767 labels)
+                    leaf = {"name": "h_int64_w%d" % w, "type": 2, "tlen": 0, "optional": optional, "conv": None, "logical": None,
+                            "scale": None, "precision": None, "tag": "int64"}
+                    dvals = [(i * 1000003 + 11) & M64 for i in range(dsize)]
+                    n = 16
+                    nulls = [optional and i % 5 == 2 for i in range(n)]
+                    ix = [(dsize - 1 - 3 * i) if i % 2 == 0 else i for i in range(sum(1 for x in nulls if not x))]
+                    levels = [0 if x else 1 for x in nulls]
+                    items = [{"dict": 0, "vals": dvals},
+                             {"v2": v2, "n": n, "def": ([["b", levels]] if optional else []), "store": ["dictidx", 8 if v2 else 2, w, [["b", ix]]],
+                              "iscomp": None, "trail": ""}]
+                    lf = {"leaves": [leaf], "rgs": [[{"codec": 0, "stats": True, "items": items}]],
+                          "created_by": "fastparquet-python version 2023.4.0 (build 0)"}
+                    it = iter(ix)
+                    table = {leaf["name"]: [None if x else dvals[next(it)] for x in nulls]}
+                    out.append((lf, table, cats))
+    return out
